@@ -164,6 +164,8 @@ class Scheduler:
       {'kind': 'uniform', 'p': float}
       {'kind': 'hot', 'p_hot': float, 'p_cold': float, 'hot': [substr, ...]}
       {'kind': 'pct', 'd': int, 'est_steps': int}
+      {'kind': 'afterhot', 'hot': [substr, ...], 'window': int, 'p_after': float, 'p_hot': float, 'p_cold': float}
+                                                                       (switch in the window right after a task leaves the hot region)
       {'kind': 'hotpct', 'points': [int, ...], 'hot': [substr, ...]}   (switch at the n-th hot-region line events, elsewhere with probability p_cold)
       {'kind': 'replay', 'switches': [[step, tid], ...]}
       {'kind': 'serial'}              (never pre-empt; run tasks in tid order)
@@ -199,10 +201,11 @@ class Scheduler:
         self.on_step = None         # optional callback(step) -> None (crash fault)
         if self.kind == 'replay':
             self._replay = [(x[0], x[1], x[2] if len(x) > 2 else 0) for x in strategy['switches']]
-        if self.kind in ('hot', 'hotpct'):
+        if self.kind in ('hot', 'hotpct', 'afterhot'):
             self._hot = tuple(strategy['hot'])
         else:
             self._hot = ()
+        self._after = {}            # tid -> line events left in the window that follows the task's last hot-region line
         self._hot_events = 0
         self._hot_points = set(strategy.get('points', ())) if self.kind == 'hotpct' else ()
         self._pct_points = None
@@ -449,6 +452,23 @@ class Scheduler:
                     best = x
             if best is not me:
                 target = best
+        elif kind == 'afterhot':
+            # switch, with probability p_after, at the first `window` line events a task executes *after leaving* the hot
+            # region (e.g. right after a pool release / acquire returned: the use-after-release and acquire-to-first-use windows)
+            if c[2]:
+                self._after[me.tid] = self.strategy.get('window', 2)
+                p = self.strategy.get('p_hot', 0.0)
+            else:
+                left = self._after.get(me.tid, 0)
+                if left > 0:
+                    self._after[me.tid] = left - 1
+                    p = self.strategy.get('p_after', 0.5)
+                else:
+                    p = self.strategy.get('p_cold', 0.0)
+            if p > 0.0 and self.rng.random() < p:
+                cands = self._runnable(exclude=me)
+                if cands:
+                    target = cands[0] if len(cands) == 1 else self.rng.choice(cands)
         elif kind == 'hotpct':
             # switch exactly at the chosen ordinal numbers of hot-region line events, nowhere else
             fire = False
